@@ -1,0 +1,33 @@
+//go:build verif
+
+package core
+
+// This file is a test seam for the external verification harness (/verif, property C02).
+// It is compiled only with `-tags verif` and adds no behaviour to normal builds.
+
+// VerifRLock takes the blockchain's state lock for reading, as a long-running
+// reader (VerifyTx, PoolTx, ...) does. While it is held, storeBlock stops at
+// the point where it takes the lock for writing, after everything it does
+// before that point. Must be paired with VerifRUnlock.
+func (bc *Blockchain) VerifRLock() { bc.lock.RLock() }
+
+// VerifRUnlock releases the lock taken by VerifRLock.
+func (bc *Blockchain) VerifRUnlock() { bc.lock.RUnlock() }
+
+// VerifPersistAsTimer performs one flush of the write cache exactly as the
+// timer of Run does: bc.persist() without addLock, so that it can fall inside
+// a block addition that is in progress on another goroutine. It returns the
+// number of keys that were waiting in the write cache when the flush started.
+func (bc *Blockchain) VerifPersistAsTimer() (int, error) {
+	n := bc.dao.Store.Len()
+	_, err := bc.persist()
+	return n, err
+}
+
+// VerifSetKeysPerPersist sets the estimated persist velocity and returns the
+// previous value. storeBlock waits for a flush (back-pressure) while the
+// write cache holds more than four times that many keys; 0 switches the wait
+// off (the initial value).
+func (bc *Blockchain) VerifSetKeysPerPersist(n uint32) uint32 {
+	return bc.keysPerPersist.Swap(n)
+}
